@@ -9,7 +9,7 @@ for d in sorted(glob.glob("/verif/seeded/*")):
     m = json.load(open(mp))
     name = os.path.basename(d)
     h = m.get("history", "")
-    first = "missed, then strengthened" if h.startswith("MISSED") else ("no-failing-input-found first, then concrete" if h.startswith("first run: VIOLATION") else "caught")
+    first = "missed, then strengthened" if h.startswith("MISSED") else ("no-failing-input-found first, then concrete" if (h.startswith("first run: VIOLATION") or h.startswith("first only")) else "caught")
     rows.append(f"| {name} | {m['needs_to_manifest'][:230]} | {first} |")
 print("| seeded change | what it needs to manifest | outcome (quick tier of its property's check) |\n|---|---|---|")
 print("\n".join(rows))
